@@ -15,8 +15,11 @@ def run(ctx):
                 "distinct = distinct op program / scenario parameters; non-trivial = more than 3 ops")
     netprops.op_level(ctx, res, PROP, ctx.budget(120, 4000, 400))
     netprops.run_scenarios(ctx, res, netprops.scenario_streams, ctx.budget(150, 6000, 500), "streams")
+    netprops.process_level_streams(ctx, res)
     if ctx.thorough:
         netprops.run_scenarios(ctx, res, netprops.scenario_streams, 300, "streams-preempt", preempt=3)
+        for spec in ("popen//execmodel=main_thread_only", "popen//python=/venv/bin/python"):
+            netprops.process_level_streams(ctx, res, nconv=1 if "main_thread_only" in spec else 3, spec=spec)
     return res
 
 
